@@ -68,6 +68,7 @@ def product_specs(seed):
 
 
 def run(ctx):
+    common.TIE_EXCUSES["value"] = True
     res = common.run_docprop(ctx, "c06", generate, None, n_quick=170, n_thorough=1500)
     if ctx.get("replay") or ctx["tier"] != "thorough":
         return res
